@@ -1,6 +1,7 @@
 package sym
 
 import (
+	"time"
 	"fmt"
 	"go/constant"
 	"go/token"
@@ -379,6 +380,9 @@ func (p *Path) run(fr *frame, block *ssa.BasicBlock) (Value, *Panic) {
 			p.steps++
 			if p.steps > p.X.MaxSteps {
 				panic(engineErr{"step budget exceeded at " + p.pos(in)})
+			}
+			if p.steps&0x3fff == 0 && !p.deadline.IsZero() && time.Now().After(p.deadline) {
+				panic(engineErr{"UNWIND: job wall-clock budget exceeded at " + p.pos(in)})
 			}
 			switch x := in.(type) {
 			case *ssa.DebugRef:
